@@ -25,7 +25,7 @@ def tetrahedron(P1: Vec, P2: Vec, P3: Vec, P4: Vec, volume: bool=False) -> Surfa
     """
     tet = RawMeshData()
     tet.vertices += [P1,P2,P3,P4]
-    tet.faces += [(1,2,3), (0,2,3),(0,1,3),(0,1,2)]
+    tet.faces += [(1,3,2), (0,2,3), (0,3,1), (0,1,2)] # same convention as the faces of a tetrahedral cell (mesh_data.py)
     if volume: tet.cells.append((0,1,2,3))
     return _instanciate_raw_mesh_data(tet)
 
